@@ -179,11 +179,11 @@ theorem stale_disk_inv (s : St) (p : Nat) (nm : String) (g : DFile) (h : g ∈ (
   · exact Or.inl h
 
 theorem intact_stale (s : St) (p : Nat) (nm : String) (q : Nat) (h : Intact s q) : Intact (addStale s p nm) q := by
-  obtain ⟨h0, h1, h2⟩ := h
-  refine ⟨stale_disk _ _ _ _ h0, stale_disk _ _ _ _ h1, ?_⟩
-  intro adr hl a ha
-  rw [(stale_ctl s p nm).2.2.2.2.2.2.2.1] at hl
-  exact stale_disk _ _ _ _ (h2 adr hl a ha)
+  obtain ⟨h0, h1, adr, hl, h2⟩ := h
+  refine ⟨stale_disk _ _ _ _ h0, stale_disk _ _ _ _ h1, adr, ?_, ?_⟩
+  · rw [(stale_ctl s p nm).2.2.2.2.2.2.2.1]; exact hl
+  · intro a ha
+    exact stale_disk _ _ _ _ (h2 a ha)
 
 theorem good_stale (s : St) (hg : Good s) (p : Nat) (nm : String) : Good (addStale s p nm) := by
   obtain ⟨h1, h2, h3, h4, h5, _⟩ := stale_ctl s p nm
